@@ -639,12 +639,26 @@ func Load(root string) (*FS, error) {
 type Snapshot struct {
 	Files map[string]Node
 	Dirs  []string
+	// Links: names that are further hard links of another name's file (alias -> the alphabetically first name)
+	Links map[string]string
 }
 
 func (fs *FS) Snapshot() Snapshot {
 	s := Snapshot{Files: make(map[string]Node, len(fs.Files))}
+	first := map[*Node]string{}
 	for p, n := range fs.Files {
 		s.Files[p] = *n
+		if q, ok := first[n]; !ok || p < q {
+			first[n] = p
+		}
+	}
+	for p, n := range fs.Files {
+		if q := first[n]; q != p {
+			if s.Links == nil {
+				s.Links = map[string]string{}
+			}
+			s.Links[p] = q
+		}
 	}
 	for d := range fs.Dirs {
 		s.Dirs = append(s.Dirs, d)
@@ -684,6 +698,9 @@ func (s Snapshot) Materialise(dir, pool string) error {
 		}
 	}
 	for p, n := range s.Files {
+		if _, alias := s.Links[p]; alias && pool == "" {
+			continue
+		}
 		dst := filepath.Join(dir, p)
 		if n.Orig != "" && pool != "" {
 			if err := os.Link(filepath.Join(pool, n.Orig), dst); err == nil {
@@ -692,6 +709,15 @@ func (s Snapshot) Materialise(dir, pool string) error {
 		}
 		if err := os.WriteFile(dst, n.Data, 0o644); err != nil {
 			return err
+		}
+	}
+	if pool == "" {
+		// without a pool the tree is self-contained and keeps its hard links (a later in-place write through one
+		// name is seen through the other, as on the real file system)
+		for p, q := range s.Links {
+			if err := os.Link(filepath.Join(dir, q), filepath.Join(dir, p)); err != nil {
+				return err
+			}
 		}
 	}
 	return nil
